@@ -789,6 +789,143 @@ pub fn run_c18(run: &mut Run) -> Stats {
         }
         let _ = std::fs::remove_file(&path);
     }
+    // Streams of ONE entity drained on DIFFERENT THREADS: every interleaving of their read-side
+    // file system calls (see sysched.rs). The entity's streams share one open file; each must
+    // yield exactly its own range whatever the other threads do in between two of its calls.
+    {
+        let len: u64 = 200_001;
+        let path = base.join("threads");
+        std::fs::write(&path, content_vec(0, len as usize)).unwrap();
+        type Job = Box<dyn FnOnce() -> (Vec<u8>, String) + Send>;
+        let drain = |crf: Crf, r: (u64, u64), via_serve: bool| -> Job {
+            Box::new(move || {
+                let w = noop_waker();
+                let mut cx = Context::from_waker(&w);
+                let mut got = Vec::new();
+                if via_serve {
+                    let req = http::Request::builder().method("GET").header("range", format!("bytes={}-{}", r.0, r.1 - 1)).body(()).unwrap();
+                    let resp: http::Response<http_serve::Body<Bytes, FErr>> = http_serve::serve(crf, &req);
+                    let mut body = Box::pin(resp.into_body());
+                    for _ in 0..64 {
+                        match http_body::Body::poll_frame(body.as_mut(), &mut cx) {
+                            Poll::Ready(Some(Ok(f))) => {
+                                if let Ok(d) = f.into_data() {
+                                    got.extend_from_slice(&d)
+                                }
+                            }
+                            Poll::Ready(None) => return (got, "end".into()),
+                            Poll::Ready(Some(Err(e))) => return (got, format!("err:{}", e.text)),
+                            Poll::Pending => return (got, "pending".into()),
+                        }
+                    }
+                    return (got, "horizon".into());
+                }
+                let mut s = crf.get_range(r.0..r.1);
+                for _ in 0..64 {
+                    match s.as_mut().poll_next(&mut cx) {
+                        Poll::Ready(Some(Ok(b))) => {
+                            if b.is_empty() {
+                                return (got, "empty-chunk".into());
+                            }
+                            got.extend_from_slice(&b)
+                        }
+                        Poll::Ready(None) => return (got, "end".into()),
+                        Poll::Ready(Some(Err(e))) => return (got, format!("err:{}", e.text)),
+                        Poll::Pending => return (got, "pending".into()),
+                    }
+                }
+                (got, "horizon".into())
+            })
+        };
+        // (ranges per thread, via serve?, preemption bound, file cursor left at this position by the caller)
+        let unb = u32::MAX;
+        let mut shapes: Vec<(Vec<(u64, u64)>, bool, u32, u64)> = vec![
+            (vec![(0, 131_073), (65_530, 196_610)], false, unb, 0),
+            (vec![(1, 65_537), (100_000, 200_001)], false, unb, 77),
+            (vec![(0, 70_000), (70_000, 140_000), (140_000, 200_001)], false, 3, 0),
+            (vec![(5, 200_001), (0, 5)], true, unb, 200_001),
+            (vec![(0, 131_072), (131_072, 200_001)], true, unb, 3),
+        ];
+        if tier == Tier::Thorough {
+            shapes.push((vec![(0, 200_001), (0, 200_001)], false, unb, 0));
+            shapes.push((vec![(0, 70_000), (70_000, 140_000), (140_000, 200_001)], false, 6, 0));
+            shapes.push((vec![(0, 65_536), (65_536, 131_072), (131_072, 196_608), (196_608, 200_001)], false, 4, 1));
+        }
+        let mut total_exec = 0u64;
+        let mut calls: std::collections::BTreeSet<&'static str> = Default::default();
+        let mut sys_info = Vec::new();
+        for (si, (ranges, via_serve, bound, cursor)) in shapes.iter().enumerate() {
+            let mut f = File::open(&path).unwrap();
+            {
+                use std::io::Seek;
+                f.seek(std::io::SeekFrom::Start(*cursor)).unwrap();
+            }
+            let crf = Crf::new(f, HeaderMap::new()).unwrap();
+            let mut mk = || ranges.iter().map(|r| drain(crf.clone(), *r, *via_serve)).collect::<Vec<Job>>();
+            let mut bad: Option<(Vec<usize>, String)> = None;
+            let mut distinct: std::collections::HashSet<Vec<usize>> = Default::default();
+            let mut check = |choices: &[usize], rs: Vec<std::thread::Result<(Vec<u8>, String)>>, trace: &[crate::sysched::Decision]| {
+                distinct.insert(choices.to_vec());
+                for (t, r) in rs.into_iter().enumerate() {
+                    let (a, b) = ranges[t];
+                    let verdict = match r {
+                        Err(p) => format!("panic: {}", panic_msg(p)),
+                        Ok((got, term)) => {
+                            if term != "end" {
+                                format!("terminal event {term} after {} bytes", got.len())
+                            } else if got != content_vec(a, (b - a) as usize) {
+                                let first_bad = got.iter().zip(content_vec(a, (b - a) as usize).iter()).position(|(x, y)| x != y);
+                                format!("wrong bytes: {} delivered, {} expected, first difference at offset {:?} of the range", got.len(), b - a, first_bad)
+                            } else {
+                                "ok".to_string()
+                            }
+                        }
+                    };
+                    if verdict != "ok" && bad.is_none() {
+                        let sched: Vec<String> = trace.iter().map(|d| format!("T{}:{}", d.opts[d.chosen], d.call)).collect();
+                        bad = Some((choices.to_vec(), format!("thread {t} draining {a}..{b}: {verdict}; schedule {}", sched.join(" "))));
+                    }
+                }
+            };
+            let cap = tier.pick(4_000u64, 200_000);
+            match crate::sysched::explore(*bound, cap, &mut mk, &mut check) {
+                Err(m) => {
+                    eprintln!("MACHINERY ERROR: system-call scheduler: {m}");
+                    std::process::exit(2);
+                }
+                Ok(ex) => {
+                    total_exec += ex.executions;
+                    calls.extend(ex.calls_seen.iter().copied());
+                    st.evaluations += ex.executions;
+                    st.count("syscall_interleavings", ex.executions);
+                    if ex.capped_at != 0 {
+                        st.count("syscall_interleaving_shapes_capped", 1);
+                    }
+                    sys_info.push(json!({"ranges": ranges, "via_serve": via_serve, "preemption_bound": if *bound == unb { json!("none") } else { json!(bound) }, "caller_left_cursor_at": cursor, "executions": ex.executions, "max_decisions": ex.max_decisions, "max_preemptions_used": ex.max_preemptions_used, "capped_at": ex.capped_at}));
+                    for c in &distinct {
+                        st.nontrivial(&("sys", si, c));
+                    }
+                    let s0 = st.state(&("sys", si));
+                    let s1 = st.state(&("sys-result", bad.is_none()));
+                    st.transition(s0, 0, s1);
+                    st.outcome(format!("threads-sharing-one-file/{}", if bad.is_none() { "ok" } else { "bad" }));
+                }
+            }
+            if let Some((choices, msg)) = bad {
+                if prop == "C18" {
+                    let (ranges, via_serve) = (ranges.clone(), *via_serve);
+                    st.violation((1 << 59) + si as u64, "streams-on-threads".into(), format!("streams of one entity drained on {} threads{}: {msg}", ranges.len(), if via_serve { " (through serve)" } else { "" }), move || json!({"engine": "fs_mc", "what": "threads", "ranges": ranges, "choices": choices}));
+                }
+            }
+        }
+        // the reads must have gone through the interposed calls, or nothing was interleaved
+        if !calls.iter().any(|c| *c != "start") || total_exec < 10 {
+            eprintln!("MACHINERY ERROR: no file system call of the subject was seen by the interposed wrappers ({calls:?}, {total_exec} executions): the interleaving family would be vacuous");
+            std::process::exit(2);
+        }
+        run.extra.insert("threads_sharing_one_file".into(), json!({"calls_interposed": calls, "shapes": sys_info}));
+        let _ = std::fs::remove_file(&path);
+    }
     // non-regular files are refused -- by both constructors
     for (what, p) in [("directory", base.clone()), ("char-device", PathBuf::from("/dev/null")), ("directory/with-metadata", base.clone()), ("char-device/with-metadata", PathBuf::from("/dev/null"))] {
         st.evaluations += 1;
